@@ -173,31 +173,32 @@ theorem scc_order_independent (g g' : Graph) (hc : ClosedGraph g) (hc' : ClosedG
   (sccRun_classPartition g hc vo hvo).samePartition
     ((sccRun_classPartition g' hc' vo' hvo').congr hk he)
 
-/-- **`group_by_strong_components` does not depend on the iteration order of
-`set(edges)`** — unconditionally on closed class graphs: the package and module
-of every class, and whether the step fails, are the same for any two orders.
+/-- **`group_by_strong_components` does not depend on any iteration order** —
+unconditionally on closed class graphs: for two presentations `g`, `g'` of the
+dependency graph (other dict order, other order inside every
+`list(set(obj.dependencies(True)))`) and two iteration orders of `set(edges)`, the
+package and module of every class, and whether the step fails, are the same.
 (Composition of `scc_order_independent`, `scc_yields_partition` and
 `clusters_assignment_invariant`.) -/
-theorem group_by_strong_components_order_independent (package : Str) (cs : List ClassInfo)
-    (vo vo' : List Str) (hc : ClosedGraph (classEdges cs))
-    (hvo : ∀ v, v ∈ vo ↔ v ∈ keysOf (classEdges cs))
-    (hvo' : ∀ v, v ∈ vo' ↔ v ∈ keysOf (classEdges cs)) :
-    (groupByStrongComponents package cs vo).toOption
-      = (groupByStrongComponents package cs vo').toOption := by
-  have h := scc_order_independent (classEdges cs) (classEdges cs) hc hc (fun _ => Iff.rfl)
-    (fun _ _ => Iff.rfl) vo vo' hvo hvo'
-  obtain ⟨he, _, hd, _⟩ := scc_partition (classEdges cs) hc vo hvo
-  obtain ⟨he', _, _, _⟩ := scc_partition (classEdges cs) hc vo' hvo'
+theorem clusters_order_independent (package : Str) (cs : List ClassInfo) (g g' : Graph)
+    (hc : ClosedGraph g) (hc' : ClosedGraph g')
+    (hk : ∀ x, x ∈ keysOf g ↔ x ∈ keysOf g') (he : ∀ x y, Edge g x y ↔ Edge g' x y)
+    (vo vo' : List Str) (hvo : ∀ v, v ∈ vo ↔ v ∈ keysOf g) (hvo' : ∀ v, v ∈ vo' ↔ v ∈ keysOf g') :
+    (groupByStrongComponentsG package cs g vo).toOption
+      = (groupByStrongComponentsG package cs g' vo').toOption := by
+  have h := scc_order_independent g g' hc hc' hk he vo vo' hvo hvo'
+  obtain ⟨herr, _, hd, _⟩ := scc_partition g hc vo hvo
+  obtain ⟨herr', _, _, _⟩ := scc_partition g' hc' vo' hvo'
   have key := clusters_assignment_invariant package cs h hd
-  unfold groupByStrongComponents
-  simp only [he, he']
-  cases h1 : assignClusters package cs (sccRun (classEdges cs) vo).out with
+  unfold groupByStrongComponentsG
+  simp only [herr, herr']
+  cases h1 : assignClusters package cs (sccRun g vo).out with
   | error e =>
-    cases h2 : assignClusters package cs (sccRun (classEdges cs) vo').out with
+    cases h2 : assignClusters package cs (sccRun g' vo').out with
     | error e' => rfl
     | ok r' => rw [h1, h2] at key; simp [Except.toOption] at key
   | ok r =>
-    cases h2 : assignClusters package cs (sccRun (classEdges cs) vo').out with
+    cases h2 : assignClusters package cs (sccRun g' vo').out with
     | error e' => rw [h1, h2] at key; simp [Except.toOption] at key
     | ok r' =>
       rw [h1, h2] at key
@@ -205,31 +206,39 @@ theorem group_by_strong_components_order_independent (package : Str) (cs : List 
       simp [Except.toOption, key]
 
 /-- the same for `group_by_namespace_clusters` -/
-theorem group_by_namespace_clusters_order_independent (nsPackage : Option Str → Str)
-    (cs : List ClassInfo) (vo vo' : List Str) (hc : ClosedGraph (classEdges cs))
-    (hvo : ∀ v, v ∈ vo ↔ v ∈ keysOf (classEdges cs))
-    (hvo' : ∀ v, v ∈ vo' ↔ v ∈ keysOf (classEdges cs)) :
-    (groupByNamespaceClusters nsPackage cs vo).toOption
-      = (groupByNamespaceClusters nsPackage cs vo').toOption := by
-  have h := scc_order_independent (classEdges cs) (classEdges cs) hc hc (fun _ => Iff.rfl)
-    (fun _ _ => Iff.rfl) vo vo' hvo hvo'
-  obtain ⟨he, _, hd, _⟩ := scc_partition (classEdges cs) hc vo hvo
-  obtain ⟨he', _, _, _⟩ := scc_partition (classEdges cs) hc vo' hvo'
+theorem namespace_clusters_order_independent (nsPackage : Option Str → Str) (cs : List ClassInfo)
+    (g g' : Graph) (hc : ClosedGraph g) (hc' : ClosedGraph g')
+    (hk : ∀ x, x ∈ keysOf g ↔ x ∈ keysOf g') (he : ∀ x y, Edge g x y ↔ Edge g' x y)
+    (vo vo' : List Str) (hvo : ∀ v, v ∈ vo ↔ v ∈ keysOf g) (hvo' : ∀ v, v ∈ vo' ↔ v ∈ keysOf g') :
+    (groupByNamespaceClustersG nsPackage cs g vo).toOption
+      = (groupByNamespaceClustersG nsPackage cs g' vo').toOption := by
+  have h := scc_order_independent g g' hc hc' hk he vo vo' hvo hvo'
+  obtain ⟨herr, _, hd, _⟩ := scc_partition g hc vo hvo
+  obtain ⟨herr', _, _, _⟩ := scc_partition g' hc' vo' hvo'
   have key := ns_clusters_assignment_invariant nsPackage cs h hd
-  unfold groupByNamespaceClusters
-  simp only [he, he']
-  cases h1 : assignNsClusters nsPackage cs (sccRun (classEdges cs) vo).out with
+  unfold groupByNamespaceClustersG
+  simp only [herr, herr']
+  cases h1 : assignNsClusters nsPackage cs (sccRun g vo).out with
   | error e =>
-    cases h2 : assignNsClusters nsPackage cs (sccRun (classEdges cs) vo').out with
+    cases h2 : assignNsClusters nsPackage cs (sccRun g' vo').out with
     | error e' => rfl
     | ok r' => rw [h1, h2] at key; simp [Except.toOption] at key
   | ok r =>
-    cases h2 : assignNsClusters nsPackage cs (sccRun (classEdges cs) vo').out with
+    cases h2 : assignNsClusters nsPackage cs (sccRun g' vo').out with
     | error e' => rw [h1, h2] at key; simp [Except.toOption] at key
     | ok r' =>
       rw [h1, h2] at key
       simp only [Except.toOption, Option.map_some, Option.some.injEq] at key
       simp [Except.toOption, key]
+
+/-- instance for the container's own edges dict and two orders of `set(edges)` -/
+theorem group_by_strong_components_order_independent (package : Str) (cs : List ClassInfo)
+    (vo vo' : List Str) (hc : ClosedGraph (classEdges cs))
+    (hvo : ∀ v, v ∈ vo ↔ v ∈ keysOf (classEdges cs))
+    (hvo' : ∀ v, v ∈ vo' ↔ v ∈ keysOf (classEdges cs)) :
+    (groupByStrongComponents package cs vo).toOption
+      = (groupByStrongComponents package cs vo').toOption :=
+  clusters_order_independent package cs _ _ hc hc (fun _ => Iff.rfl) (fun _ _ => Iff.rfl) vo vo' hvo hvo'
 
 /-- **Layout of the generated package** (module of every class, class order and
 import list of every module — `DesignateClassPackages` followed by `render`'s
